@@ -58,7 +58,8 @@ def big_value(r, kind, size):
             v = graphs.Plain(nxt=v, tag='t%d' % i)
         return v
     if kind == 'long_str':
-        return ('abcdefghij' * (size // 10 + 1))[:size]
+        unit = r.pick(['abcdefghij', 'é', '日本語', '\U0001F600x', 'aß'])
+        return (unit * (size // len(unit) + 1))[:size]
     if kind == 'long_str_obj':
         class Loud:
             def __str__(self):
